@@ -406,8 +406,12 @@ type draBinderPlugin struct {
 func newDRABinderPlugin(b *BinderActor) *draBinderPlugin {
 	cl := b.API.ClientsFor("binder-dra")
 	b.API.mu.Lock()
+	prevDecide := b.API.Decide
 	b.API.Decide = func(c *Call, nth int) string {
 		if c.Actor != "binder-dra" {
+			if prevDecide != nil {
+				return prevDecide(c, nth)
+			}
 			return ""
 		}
 		verb := c.Verb
